@@ -21,13 +21,14 @@ TInit == /\ tid \in 1..Len(Traces) /\ l = 1
          /\ InitWith([mode |-> Traces[tid].cfg.mode])
 
 (* The design invariants are conjoined primed into the steps, so a real execution breaking one is
-   rejected at that step.  Each step conjoins the invariants that mention a variable it changes
-   (SenderInv/ValidWire speak about app and wire only, which a delivery leaves unchanged, so their
-   truth is inherited from the last write/inject step): same verdicts, far fewer evaluations of the
-   recursive reference decoder. *)
+   rejected at that step.  A write/inject step conjoins the per-call form of SenderInv/ValidWire
+   (CallInv, see TelnetData); a delivery conjoins the invariants over what the peer has received;
+   the reference decoding of the whole stream (RefInv) is evaluated wherever the peer has consumed
+   everything written so far (RefInvSync), and at every cut the real peer's output is compared with
+   the machine's (E.out) and with the real one-piece run of that prefix (E.one). *)
 Step(A, I) == /\ l <= Len(T.ev) /\ A /\ I /\ l' = l + 1 /\ UNCHANGED tid
-WireInv == SenderInv /\ ValidWire /\ NoLoss /\ EndToEnd
-RecvInv == RefInv /\ NoCommands /\ NoLoss /\ EndToEnd
+WireInv == CallInv /\ NoLoss /\ EndToEnd
+RecvInv == RefInvSync /\ NoCommands /\ NoLoss /\ EndToEnd
 
 TWrite   == /\ E.e = "write"
             /\ E.kind \in {"write", "seq"}
